@@ -679,6 +679,50 @@ def rule_lengths_of_query_defined_objects(ctx):
     ctx.floor("C09.m query-defined objects", n, 3)
 
 
+def rule_if_not_exists_keeps_metadata(ctx):
+    """C09.n: `CREATE TABLE IF NOT EXISTS t (...)` on a table that already exists changes nothing — the statement's comment and
+    VARCHAR lengths must not replace the existing table's. The side-table writes of an IF NOT EXISTS create therefore keep an
+    existing row (accepted idioms: ON CONFLICT DO NOTHING / INSERT OR IGNORE, or a write made only when the table was created)."""
+    from ..execmodel import coldef, lit, node, table
+    from ..values import Lst
+
+    prog = ctx.prog
+    hooks = []
+
+    def fac():
+        h = ExecHooks(None)
+        hooks.append(h)
+        return h
+
+    def run(I):
+        duck, conn, cur = make_session()
+        stmt = node("Create", "stmt", kind=Const("TABLE"), exists=Const(True),
+                    this=node("Schema", this=table("T"), expressions=Lst([coldef("A", "VARCHAR", 10)])),
+                    properties=node("Properties", expressions=Lst([node("SchemaCommentProperty", this=lit(Sym("comment", typ="str", truthy=True)))])))
+        tr = I.call(I.getattr(cur, "_transform"), [stmt], {}, None)
+        return I.call(I.getattr(cur, "_execute"), [tr, Const(None)], {}, None)
+
+    n = 0
+    for p, h in zip(explore(prog, fac, run, max_paths=16), hooks):
+        if p.outcome != "return":
+            continue
+        for sqlv, _, site in h.calls:
+            txt = text_of(sqlv)
+            if "_fs_tables_ext" not in txt and "_fs_columns_ext" not in txt:
+                continue
+            n += 1
+            which = "_fs_tables_ext" if "_fs_tables_ext" in txt else "_fs_columns_ext"
+            overwrites = bool(re.search(r"DO\s+UPDATE|OR\s+REPLACE|\bDELETE\b", txt, re.I))
+            ctx.ob("C09.n", f"CREATE TABLE IF NOT EXISTS: the {which} write keeps an existing row", not overwrites, site_loc_(site))
+            if overwrites:
+                ctx.violation("C09.n", "cursor", "FakeSnowflakeCursor._execute", f"IF NOT EXISTS create overwrites {which}", site_loc_(site),
+                              f"`create table if not exists t (v varchar(9)) comment='c2'` on an existing table leaves the table as it is, but its "
+                              f"{which} row is overwritten (ON CONFLICT … DO UPDATE): information_schema / DESCRIBE then report the new statement's "
+                              f"{'comment' if which == '_fs_tables_ext' else 'VARCHAR length'} for the old table")
+        break
+    ctx.floor("C09.n side-table writes of an IF NOT EXISTS create", n, 1)
+
+
 def site_loc_(site):
     return f"fakesnow/cursor.py:{getattr(site, 'lineno', 0)}"
 
@@ -856,5 +900,6 @@ RULES = [
     ("C09.d", rule_lifecycle, ("quick", "thorough")),
     ("C09.d2", rule_lifecycle_keys, ("quick", "thorough")),
     ("C09.m", rule_lengths_of_query_defined_objects, ("quick", "thorough")),
+    ("C09.n", rule_if_not_exists_keeps_metadata, ("quick", "thorough")),
     ("C09.e", rule_quote, ("quick", "thorough")),
 ]
